@@ -29,7 +29,7 @@ if [ "${1:-}" = "setup" ]; then
   build_nightly
   "$H/target/release/check" selftest || exit 2
   # thorough-tier extras (failures here only disable the extras, see the INFRA lines of check.sh)
-  (cd "$H" && cargo +nightly fuzz build >"$LOG.fuzz" 2>&1) || echo "note: fuzz targets did not build (thorough tier will skip the libFuzzer campaigns)"
+  (cd "$H" && cargo +nightly fuzz build -s none >"$LOG.fuzz" 2>&1) || echo "note: fuzz targets did not build (thorough tier will skip the libFuzzer campaigns)"
   (cd "$H" && cargo build --profile plain --bin check --target-dir "$H/target-plain" >"$LOG.plain" 2>&1) || echo "note: plain release build failed"
   echo "setup ok"
   exit 0
@@ -51,15 +51,21 @@ SEED="${VERIF_SEED:-0}"
 final=0
 
 if [ "$MODE" = "thorough" ]; then
-  # (1) coverage-guided campaign (libFuzzer) for the branchy code, oracle restricted to this property
+  # (1) coverage-guided campaign (libFuzzer), oracle restricted to this property. Built without a sanitizer:
+  # average is #![forbid(unsafe_code)] and the harness has no unsafe code, so ASan could only slow the search down
+  # (3-6x measured); debug assertions and overflow checks stay on.
   case "$ID" in
-    C05|C07|C15) FT=quantile; RUNS=150000 ;;
-    C06|C12|C13) FT=histogram; RUNS=400000 ;;
-    C11|C14|C18|C20) FT=history; RUNS=400000 ;;
+    C05|C07|C15) FT=quantile; RUNS=1000000 ;;
+    C06|C12|C13) FT=histogram; RUNS=3000000 ;;
+    C11|C14|C18|C20) FT=history; RUNS=2000000 ;;
+    C01|C02|C03|C04) FT=moments; RUNS=30000 ;;
+    C08|C09|C10) FT=moments; RUNS=60000 ;;
+    C16) FT=moments; RUNS=2000000 ;;
+    C17) FT=moments; RUNS=600000 ;;
     *) FT="" ;;
   esac
   if [ -n "$FT" ]; then
-    if (cd "$H" && cargo +nightly fuzz build "$FT" >"$LOG.fuzz" 2>&1); then
+    if (cd "$H" && cargo +nightly fuzz build -s none "$FT" >"$LOG.fuzz" 2>&1); then
       CORPUS="$H/fuzz/corpus-run/$ID-$FT"; ART="$H/fuzz/artifacts/$ID-$FT/"
       rm -rf "$CORPUS" "$ART"; mkdir -p "$CORPUS" "$ART"
       FSEED=$(( (SEED % 2147483000) + 1 ))   # libFuzzer: 0 means random
